@@ -149,3 +149,130 @@ class DelegateForwarder(Contract):
 
     def covers(self, cx, ov, info):
         return [("forwards", lambda k, p, s: k == "return")]
+
+
+@register
+class RemoveTraitDelegateListener(Contract):
+    """HasTraits._remove_trait_delegate_listener(name, remove) -- what setattr_delegate calls after a LOCAL value was stored
+    under a deferring attribute (remove=True: the link is broken, the forwarder must go) or deleted (remove=False: the link
+    is restored, the forwarder must come back).
+      remove, forwarder recorded : exactly one on_trait_change(<the recorded forwarder>, <listener name of (name, pattern)>,
+                                   remove=True) on the object itself, the record deleted, the table dropped when empty
+      remove, nothing recorded   : nothing is registered or unregistered, no record appears
+      restore, nothing recorded  : exactly one _init_trait_delegate_listener(name, _, pattern) (contract above)
+      restore, forwarder recorded: nothing (it is attached already)
+    where pattern is the class's __listener_traits__[name][1]."""
+    path = PATH
+    qualname = "HasTraits._remove_trait_delegate_listener"
+    properties = ("C11", "C19")
+    class_paths = (PATH,)
+    overloads = ("break/recorded", "break/not-recorded", "restore/not-recorded", "restore/recorded")
+    assumptions = ("A-PY", "_trait_delegate_name through its lemma: here an arbitrary string", "on_trait_change and _init_trait_delegate_listener are used as summaries (contracts of their own)",
+                   "self.__class__.__listener_traits__[name] is an opaque (kind, pattern) pair")
+
+    def configure(self, cx, I, ov):
+        log = lambda st, rec: st.gset("log", st.ghost.get("log", ()) + (rec,))
+        consts = source.module_constants(PATH)
+        self.LT = consts["ListenerTraits"]
+        cx.module_globals["ListenerTraits"] = VStr(const=self.LT)
+        self.pattern_name = z3.String("listener_name")
+        self.pattern = z3.String("pattern")
+        self.klass, self.ctable = z3.Consts("the_class class_listener_table", Val)
+        outer = self
+
+        class DelegateName(Contract):
+            path = PATH
+            qualname = "HasTraits._trait_delegate_name"
+
+            def summary(self_, I2, self_ref, args, kwargs, st, k):
+                return k(VStr(outer.pattern_name), log(st, ("_trait_delegate_name",) + tuple(args)))
+
+        class OnTraitChange(Contract):
+            path = PATH
+            qualname = "HasTraits.on_trait_change"
+
+            def summary(self_, I2, self_ref, args, kwargs, st, k):
+                return k(NONE, log(st, ("on_trait_change", self_ref, tuple(args), dict(kwargs))))
+
+        class InitListener(Contract):
+            path = PATH
+            qualname = "HasTraits._init_trait_delegate_listener"
+
+            def summary(self_, I2, self_ref, args, kwargs, st, k):
+                return k(NONE, log(st, ("_init_trait_delegate_listener", self_ref, tuple(args))))
+        cx.contracts = dict(cx.contracts)
+        cx.contracts[("HasTraits", "_trait_delegate_name")] = DelegateName()
+        cx.contracts[("HasTraits", "on_trait_change")] = OnTraitChange()
+        cx.contracts[("HasTraits", "_init_trait_delegate_listener")] = InitListener()
+        cx.elem_attrs["__listener_traits__"] = lambda I2, o, st, k: k(VElem(self.ctable), st)
+
+        def getitem_hook(I2, obj, key, st, k):
+            if isinstance(obj, VElem) and obj.t.eq(self.ctable):
+                return k(VTuple([VElem(z3.Const("delegate_kind", Val)), VStr(self.pattern)]), log(st, ("class-table-lookup", key)))
+            return None
+        cx.getitem_hook = getitem_hook
+
+    def setup(self, cx, I, ov):
+        st = St()
+        self.self_ref = VRef(cx.new_oid())
+        self.name = z3.String("name")
+        self.T0 = z3.Const("listener_table", MapV)
+        self.fwd = z3.Const("recorded_forwarder", Val)
+        self.table_ref = VRef(cx.new_oid())
+        st = st.put(self.table_ref.oid, HObj("dict", self.T0))
+        st = st.put(self.self_ref.oid, HObj("obj", None, "HasTraits", {self.LT: self.table_ref, "__class__": VElem(self.klass)}))
+        key = cx.box_str(self.name)
+        if ov.endswith("/recorded"):
+            st = st.assume(self.T0[key] == Opt.some(self.fwd))
+        else:
+            st = st.assume(self.T0[key] == Opt.none)
+        self.others = z3.Bool("other_forwarders_recorded")
+        k2 = z3.Const("k!other", Val)
+        st = st.assume(self.others == z3.Exists([k2], z3.And(k2 != key, self.T0[k2] != Opt.none)))
+        remove = VBool(z3.BoolVal(ov.startswith("break")))
+        return st, [self.self_ref, VStr(self.name), remove], {}, dict(witness={"other forwarders recorded": self.others},
+                                                                      concretise=lambda m: dict(harness="delegate", family="link_notification"))
+
+    def post(self, cx, I, ov, info, kind, payload, st):
+        if kind == "raise":
+            return [("exc-free", z3.BoolVal(False), dict(exception="%s %r" % (payload.cname or payload.sym, payload.origin)))]
+        log = st.ghost.get("log", ())
+        regs = [r for r in log if r[0] == "on_trait_change"]
+        inits = [r for r in log if r[0] == "_init_trait_delegate_listener"]
+        key = cx.box_str(self.name)
+        f = st.heap[self.self_ref.oid].fields.get(self.LT)
+        T1 = st.heap[f.oid].payload if isinstance(f, VRef) else None
+        k2 = z3.Const("k!frame", Val)
+        out = []
+        if ov == "break/recorded":
+            out.append(("post:exactly-one-unregistration-and-no-installation", z3.BoolVal(len(regs) == 1 and not inits)))
+            if len(regs) == 1:
+                _t, who, args, kw = regs[0]
+                allargs = dict(zip(("handler", "name", "remove", "dispatch", "priority", "deferred", "target"), args))
+                allargs.update(kw)
+                rm = allargs.get("remove")
+                nm = allargs.get("name")
+                out += [("post:on-the-object-itself", z3.BoolVal(isinstance(who, VRef) and who.oid == self.self_ref.oid)),
+                        ("post:it-is-a-removal", z3.BoolVal(isinstance(rm, VBool) and z3.is_true(z3.simplify(rm.t)))),
+                        ("post:of-the-recorded-forwarder", as_val(cx, allargs["handler"], st) == self.fwd if allargs.get("handler") is not None else z3.BoolVal(False)),
+                        ("post:under-the-listener-name-of-the-deferred-trait", nm.t == self.pattern_name if isinstance(nm, VStr) and nm.t is not None else z3.BoolVal(False)),
+                        ("post:the-listener-name-is-computed-from-name-and-the-class's-pattern", z3.BoolVal(any(
+                            r[0] == "_trait_delegate_name" and isinstance(r[1], VStr) and r[1].t.eq(self.name) and isinstance(r[2], VStr) and r[2].t.eq(self.pattern) for r in log)))]
+            if T1 is not None:
+                out.append(("post:the-record-is-deleted-the-other-records-stay", z3.And(T1[key] == Opt.none, z3.ForAll([k2], z3.Implies(k2 != key, T1[k2] == self.T0[k2])))))
+                out.append(("post:the-table-stays-while-other-forwarders-are-recorded", self.others))
+            else:
+                out.append(("post:the-table-is-dropped-only-when-it-became-empty", z3.Not(self.others)))
+        elif ov in ("break/not-recorded", "restore/recorded"):
+            out.append(("post:nothing-is-registered-unregistered-or-installed", z3.BoolVal(not regs and not inits)))
+            out.append(("post:the-table-is-left-as-it-was", T1 == self.T0 if T1 is not None else z3.BoolVal(False)))
+        else:
+            out.append(("post:exactly-one-installation-and-no-unregistration", z3.BoolVal(len(inits) == 1 and not regs)))
+            if len(inits) == 1:
+                _t, who, args = inits[0]
+                out += [("post:on-the-object-itself", z3.BoolVal(isinstance(who, VRef) and who.oid == self.self_ref.oid)),
+                        ("post:for-this-name-with-the-class's-pattern", z3.And(args[0].t == self.name, args[2].t == self.pattern) if len(args) == 3 and isinstance(args[0], VStr) and isinstance(args[2], VStr) else z3.BoolVal(False))]
+        return out
+
+    def covers(self, cx, ov, info):
+        return [("done", lambda k, p, s: k == "return")]
